@@ -12,8 +12,10 @@ import AFV.Lemmas.SetFinal
                            table and in the table the architecture is evaluated against
 * `other_partition`, `overlap_rejected`, `accepted_disjoint`, `other_twice_rejected`
                            dictionaries keyed by set expressions with an `Other` key
-* `persistent_named_set_partial` / `persistent_named_set_counterexample`
-                           `Persistent` vs the workload-level `persistent_tensors` (known finding)
+* `final_named`, `persistent_named_set`
+                           the named sets in the table the architecture sees; `Persistent` = the
+                           tensors persistent after evaluation, also with a workload-level
+                           `persistent_tensors` (code after fix 629ad68)
 -/
 namespace AFV.C22
 open AFV.SetAlg AFV.Renames AFV.SetSpec
@@ -309,8 +311,8 @@ theorem renameSymbolTable_eq (w : Workload) (e : Einsum) :
 /-- **Named sets.** In the symbol table `Einsum._eval_expressions` builds, every reserved name and
 every tensor name of the Einsum is bound to a set of the one space `U = e.all` (the Einsum's
 tensors) whose members are exactly what the documentation says (`leaf`; `Persistent` = the tensors
-flagged persistent on their access — see `persistent_named_set_*` for the workload-level
-`persistent_tensors`). -/
+flagged persistent on their access — this is the table rename sources and `persistent_tensors`
+itself are evaluated in; `final_named` covers the table the architecture sees). -/
 theorem named_sets_correct {w : Workload} {e : Einsum} (wf : WF w e) {n : Name}
     (hn : n ∈ reserved ∨ n ∈ e.all) :
     ∃ s, lookup (renameSymbolTable w e) n = some s ∧ s.full = e.all ∧ s.space = spaceTensor ∧
@@ -450,77 +452,131 @@ theorem evalExpr_space {st : Table} {k : Nat} (x : SExpr) {r : ISet}
     simp only [evalExpr] at hr
     exact iha (fun n hn => h n (by simp [SExpr.names, hn])) hr
 
-/-- **C22 at the place a user observes it.** `t` is the symbol table
-`Spec._spec_eval_expressions(einsum_name=e)` evaluates the architecture against. An expression
-over the named sets / the Einsum's tensor names whose leaves are not shadowed by a rename is
-accepted as a tensor-set expression (`tensors.keep`, dictionary keys) and evaluates to the
-set-algebra value, complement within the Einsum's tensors. -/
+/-- `sel` only matters for `Persistent` -/
+theorem leaf_sel_irrelevant (w : Workload) (e : Einsum) (sel sel' : Name → Bool) {n : Name}
+    (hn : n ≠ "Persistent") (y : Name) : leaf w e sel n y = leaf w e sel' n y := by
+  have : (n == "Persistent") = false := by simpa using hn
+  simp [leaf, this]
+
+/-- **Named sets where a user observes them.** `t` is the symbol table
+`Spec._spec_eval_expressions(einsum_name=e)` evaluates the architecture against and `sl` the tensors
+the workload-level `persistent_tensors` selects for `e`. Every reserved name and every tensor name of
+the Einsum that no rename shadows is bound to the documented set — `Persistent` to the tensors
+flagged on their access OR selected by `persistent_tensors` — in the space `U = e.all`. -/
+theorem final_named {w : Workload} {rs : List EinsumRename} {e : Einsum} (wf : WF w e)
+    {t : Table} (ht : einsumTable w rs e = .ok t) {sl : List Name}
+    (hsel : workloadPersistent w rs e = .ok sl) {n : Name}
+    (hn : n ∈ reserved ∨ n ∈ e.all) (hsh : ∀ r ∈ effectiveRenames rs e, r.name ≠ n) :
+    ∃ s, lookup t n = some s ∧ s.full = e.all ∧ s.space = spaceTensor ∧ (∀ y ∈ s.inst, y ∈ e.all) ∧
+      ∀ y, y ∈ s.inst ↔ leaf w e (fun y => sl.contains y) n y = true := by
+  obtain ⟨l, hl, hcase⟩ := einsumTable_ok ht
+  obtain ⟨s0, hs0, hf0, hsp0, hsub0, hm0⟩ := named_sets_correct wf hn
+  have hl0 : lookup (ofDictLiteral l) n = some s0 := by
+    rw [evaluatedRenames_eq_with] at hl
+    exact final_lookup_unshadowed hl hs0 hsh
+  by_cases hP : n = "Persistent"
+  · subst hP
+    rcases hcase with ⟨hor, rfl⟩ | ⟨hpt, _, p, hp, rfl⟩
+    · rcases hor with hnone | hhas
+      · -- no workload-level persistent_tensors: nothing is selected
+        simp only [workloadPersistent, hnone, Except.ok.injEq] at hsel
+        subst hsel
+        exact ⟨s0, hl0, hf0, hsp0, hsub0, fun y => by rw [hm0 y, leaf_Persistent, leaf_Persistent]; simp⟩
+      · simp only [hasName, List.any_eq_true, beq_iff_eq] at hhas
+        obtain ⟨r, hr, hrn⟩ := hhas
+        exact absurd hrn (hsh r hr)
+    · refine ⟨tset e p, ?_, rfl, rfl, ?_, ?_⟩
+      · rw [lookup_rebind, if_pos rfl, hl0]; rfl
+      · intro y hy
+        simp only [persistentAfterEval, hsel, bind, Except.bind, pure, Except.pure,
+          Except.ok.injEq] at hp
+        subst hp
+        simp only [tset, List.mem_filter] at hy
+        exact mem_all.mpr (mem_tensorNames.mp hy.1)
+      · intro y
+        simp only [persistentAfterEval, hsel, bind, Except.bind, pure, Except.pure,
+          Except.ok.injEq] at hp
+        subst hp
+        rw [leaf_Persistent]
+        have hc : e.flaggedPersistent.contains y = isFlagged e y := by
+          have := @mem_flagged e y
+          cases h1 : e.flaggedPersistent.contains y <;> cases h2 : isFlagged e y <;> simp_all
+        simp only [tset, List.mem_filter, mem_tensorNames, hc, Bool.and_eq_true]
+  · have hlt : lookup t n = some s0 := by
+      rcases hcase with ⟨_, rfl⟩ | ⟨_, _, p, _, rfl⟩
+      · exact hl0
+      · rw [lookup_rebind, if_neg hP]; exact hl0
+    exact ⟨s0, hlt, hf0, hsp0, hsub0,
+      fun y => by rw [hm0 y, leaf_sel_irrelevant w e _ (fun y => sl.contains y) hP]⟩
+
+/-- **C22 at the place a user observes it.** An expression over the named sets / the Einsum's
+tensor names whose leaves are not shadowed by a rename is accepted as a tensor-set expression
+(`tensors.keep`, dictionary keys) and evaluates to the set-algebra value, complement within the
+Einsum's tensors, with `Persistent` = flagged or selected by the workload-level
+`persistent_tensors`. -/
 theorem arch_expr_setalgebra {w : Workload} {rs : List EinsumRename} {e : Einsum} (wf : WF w e)
-    {t : Table} (ht : einsumTable w rs e = .ok t) (x : SExpr)
+    {t : Table} (ht : einsumTable w rs e = .ok t) {sl : List Name}
+    (hsel : workloadPersistent w rs e = .ok sl) (x : SExpr)
     (hx : ∀ n ∈ x.names, (n ∈ reserved ∨ n ∈ e.all) ∧ ∀ r ∈ effectiveRenames rs e, r.name ≠ n) :
     ∃ r, evalSetExpression t x (some spaceTensor) none = .ok r ∧ r.full = e.all ∧
-      ∀ y, y ∈ r.inst ↔ holds (leaf w e (fun _ => false)) (isTensorOf e) x y = true := by
-  simp only [einsumTable, evaluatedRenames_eq_with, bind, Except.bind] at ht
-  cases hl : evaluatedRenamesWith w e (effectiveRenames rs e) with
-  | error er => simp [hl] at ht
-  | ok l =>
-    simp only [hl, pure, Except.pure, Except.ok.injEq] at ht
-    subst ht
-    have hlook : ∀ n ∈ x.names, lookup (ofDictLiteral l) n = lookup (renameSymbolTable w e) n := by
-      intro n hn
-      obtain ⟨s, hs, _⟩ := named_sets_correct wf (hx n hn).1
-      rw [hs]
-      exact final_lookup_unshadowed hl hs (hx n hn).2
-    obtain ⟨r, hr, hf, hm⟩ := named_expr_setalgebra wf x (fun n hn => (hx n hn).1)
-    have hr' : evalExpr (ofDictLiteral l) x = .ok r := by rw [evalExpr_congr x hlook]; exact hr
-    have hsp : r.space = spaceTensor := by
-      apply evalExpr_space x _ hr
-      intro n hn s hs
-      obtain ⟨s', hs', _, hsp, _⟩ := named_sets_correct wf (hx n hn).1
-      rw [hs] at hs'; cases hs'; exact hsp
-    refine ⟨r, ?_, hf, hm⟩
-    simp [evalSetExpression, hr', bind, Except.bind, hsp, pure, Except.pure]
+      ∀ y, y ∈ r.inst ↔ holds (leaf w e (fun y => sl.contains y)) (isTensorOf e) x y = true := by
+  have hss : SameSpace e.all t x := by
+    intro n hn
+    obtain ⟨s, hs, hf, _, hsub, _⟩ := final_named wf ht hsel (hx n hn).1 (hx n hn).2
+    exact ⟨s, hs, hf, hsub⟩
+  obtain ⟨r, hr, hf, _, hm⟩ := evalSet_hom e.all t x hss
+  have hsp : r.space = spaceTensor := by
+    apply evalExpr_space x _ hr
+    intro n hn s hs
+    obtain ⟨s', hs', _, hsp, _⟩ := final_named wf ht hsel (hx n hn).1 (hx n hn).2
+    rw [hs] at hs'; cases hs'; exact hsp
+  refine ⟨r, by simp [evalSetExpression, hr, bind, Except.bind, hsp, pure, Except.pure], hf, fun y => ?_⟩
+  rw [hm y, holds_congr x y (ρ' := leaf w e (fun y => sl.contains y)) (U' := isTensorOf e)]
+  · intro n hn
+    obtain ⟨s, hs, _, _, _, hmem⟩ := final_named wf ht hsel (hx n hn).1 (hx n hn).2
+    simp only [ρOf, hs]
+    have := hmem y
+    cases h1 : s.inst.contains y <;> cases h2 : leaf w e (fun y => sl.contains y) n y <;> simp_all
+  · have := @mem_all e y
+    cases h1 : e.all.contains y <;> cases h2 : isTensorOf e y <;> simp_all
 
-/-! ## `Persistent` and the workload-level `persistent_tensors` (known finding) -/
+/-! ## `Persistent` and the workload-level `persistent_tensors` (repaired by fix 629ad68) -/
 
-/-- **Partial.** Without a workload-level `persistent_tensors`, the `Persistent` the architecture
-sees is exactly the set of tensors that are persistent after evaluation. (Full statement — the same
-without `hnone` — is FALSE for the code as it is: `persistent_named_set_counterexample`.) -/
-theorem persistent_named_set_partial {w : Workload} {rs : List EinsumRename} {e : Einsum}
-    (wf : WF w e) (hnone : w.persistentTensors = none)
-    (hsh : ∀ r ∈ effectiveRenames rs e, r.name ≠ "Persistent")
+/-- **`Persistent` = the persistent tensors, full strength.** With or without a workload-level
+`persistent_tensors`, the `Persistent` the architecture sees is exactly the set of tensors that are
+persistent after evaluation (`hsh`: the user did not define a rename called `Persistent`). -/
+theorem persistent_named_set {w : Workload} {rs : List EinsumRename} {e : Einsum}
+    (wf : WF w e) (hsh : ∀ r ∈ effectiveRenames rs e, r.name ≠ "Persistent")
     {t : Table} (ht : einsumTable w rs e = .ok t) {p : List Name}
     (hp : persistentAfterEval w rs e = .ok p) :
     ∃ s, lookup t "Persistent" = some s ∧ ∀ y, y ∈ s.inst ↔ y ∈ p := by
-  simp only [einsumTable, evaluatedRenames_eq_with, bind, Except.bind] at ht
-  cases hl : evaluatedRenamesWith w e (effectiveRenames rs e) with
-  | error er => simp [hl] at ht
-  | ok l =>
-    simp only [hl, pure, Except.pure, Except.ok.injEq] at ht
-    subst ht
-    obtain ⟨s, hs, _, _, _, hm⟩ := named_sets_correct wf (n := "Persistent") (Or.inl (by decide))
-    refine ⟨s, final_lookup_unshadowed hl hs hsh, fun y => ?_⟩
-    simp only [persistentAfterEval, workloadPersistent, hnone, bind, Except.bind, pure, Except.pure,
-      Except.ok.injEq] at hp
+  simp only [persistentAfterEval, bind, Except.bind] at hp
+  cases hsel : workloadPersistent w rs e with
+  | error er => simp [hsel] at hp
+  | ok sl =>
+    simp only [hsel, pure, Except.pure, Except.ok.injEq] at hp
     subst hp
+    obtain ⟨s, hs, _, _, _, hm⟩ :=
+      final_named wf ht hsel (n := "Persistent") (Or.inl (by decide)) hsh
+    refine ⟨s, hs, fun y => ?_⟩
     rw [hm y, leaf_Persistent]
-    have hc : (e.flaggedPersistent.contains y || ([] : List Name).contains y) = isFlagged e y := by
+    have hc : e.flaggedPersistent.contains y = isFlagged e y := by
       have := @mem_flagged e y
       cases h1 : e.flaggedPersistent.contains y <;> cases h2 : isFlagged e y <;> simp_all
-    simp only [List.mem_filter, mem_tensorNames, Bool.and_eq_true, hc, Bool.or_false]
+    simp only [List.mem_filter, mem_tensorNames, hc, Bool.and_eq_true]
 
-/-- the witness: one Einsum reading `A`, `persistent_tensors: All` -/
+/-- regression witness of the repaired defect: one Einsum reading `A`, `persistent_tensors: All` -/
 def cexE : Einsum :=
   { name := "E0", accesses := [{ name := "A", output := false, persistent := false, rankVars := ["m"] }],
     renames := [] }
 def cexW : Workload := { einsums := [cexE], persistentTensors := some (.name "All") }
 
-/-- **Counterexample (model = code as it is).** `A` is persistent after evaluation, yet the
-`Persistent` the architecture sees is empty; the specified table has `Persistent = {A}`. -/
-theorem persistent_named_set_counterexample :
+/-- on the former counterexample: `A` is persistent after evaluation and `Persistent` = {A}, in the
+model and in the specified table -/
+example :
     (match einsumTable cexW [] cexE, persistentAfterEval cexW [] cexE, specTable cexW [] cexE with
      | .ok t, .ok p, .ok ts =>
-        ((lookup t "Persistent").map (·.inst) == some []) && (p == ["A"]) &&
+        ((lookup t "Persistent").map (·.inst) == some ["A"]) && (p == ["A"]) &&
         ((lookup ts "Persistent").map (·.inst) == some ["A"])
      | _, _, _ => false) = true := by
   decide
